@@ -47,6 +47,9 @@ type s35Shape struct {
 type bitw struct {
 	obj  string
 	bits []Bit
+	// loc, when set, maps a byte position of the stream to the object and
+	// index that holds it (streams spread over several input objects)
+	loc func(i int) (string, int)
 }
 
 func (w *bitw) constBits(v uint64, n int) {
@@ -56,7 +59,13 @@ func (w *bitw) constBits(v uint64, n int) {
 }
 
 // srcBit: the input bit at absolute bit position pos of the section.
-func (w *bitw) srcBit(pos int) Bit { return cellBV(w.obj, pos/8).Bits[7-pos%8] }
+func (w *bitw) srcBit(pos int) Bit {
+	if w.loc != nil {
+		o, i := w.loc(pos / 8)
+		return cellBV(o, i).Bits[7-pos%8]
+	}
+	return cellBV(w.obj, pos/8).Bits[7-pos%8]
+}
 
 // sym reserves n symbolic bits (the input's own bits at this position) and
 // returns them MSB first.
